@@ -86,6 +86,20 @@ class CtorEval:
             for s in e["stmts"]:
                 if s["k"] == "Let" and s["pat"]["k"] == "Binding" and s.get("init") is not None and not s.get("els"):
                     env[s["pat"]["name"]] = self.eval(s["init"], env, depth, owner)
+                elif s["k"] == "Let" and s["pat"]["k"] == "Tuple" and s.get("init") is not None and not s.get("els") \
+                        and all(q.get("k") == "Binding" for q in s["pat"]["pats"]):
+                    # `let (a, b) = (x, y);` / `let (a, b) = helper(..)?;` with the helper's `Ok((x, y))` inlined
+                    v = self.eval(s["init"], env, depth, owner)
+                    tries = 0
+                    while v[0] == "try":
+                        v = v[1]
+                        tries += 1
+                    if v[0] != "tuple" or len(v[1]) != len(s["pat"]["pats"]):
+                        raise Unrecognised("tuple binding of a non-tuple value", s)
+                    for q, x in zip(s["pat"]["pats"], v[1]):
+                        for _ in range(tries):
+                            x = ("try", x) if x[0] != "try" else x
+                        env[q["name"]] = x
                 elif s["k"] in ("Semi", "Expr"):
                     x = strip(s["expr"])
                     if x["k"] in ("Call", "MethodCall"):
@@ -101,6 +115,8 @@ class CtorEval:
             return self.eval(e["expr"], env, depth, owner)
         if k == "Lit":
             return ("lit", e["lit"]["v"])
+        if k == "Tup":
+            return ("tuple", [self.eval(x, env, depth, owner) for x in e["elems"]])
         if k == "AddrOf" or (k == "Unary" and e["op"] == "*"):
             return self.eval(e["e"], env, depth, owner)
         t = try_inner(e)
